@@ -3678,6 +3678,174 @@ Example einsum_single_example :
   | _ => False end.
 Proof. vm_compute. split; reflexivity. Qed.
 
+(* ====================================================================== matmul: the batch recursion *)
+Theorem matmul_rec_den_proof (V : Type) (vzero : V) (vadd vmul : V -> V -> V) (n : Z) :
+  forall (sha shb : shape) (a b : idx -> V) (ix : idx),
+    length sha = length shb ->
+    matmul_rec V vzero vadd vmul sha shb n a b ix = np_matmul_batch V vzero vadd vmul sha shb n a b ix.
+Proof.
+  induction sha as [|da sha IH]; intros [|db shb] a b ix Hl; simpl in Hl; try discriminate.
+  - unfold np_matmul_batch. simpl. destruct ix as [|i [|k [|x r]]]; reflexivity.
+  - cbn [matmul_rec]. destruct ix as [|i ix']; [reflexivity|].
+    rewrite IH by lia. unfold np_matmul_batch. cbn [length firstn skipn combine map bcast_idx fst snd].
+    fold (bcast_idx sha (firstn (length sha) ix')). fold (bcast_idx shb (firstn (length sha) ix')).
+    destruct (skipn (length sha) ix') as [|i0 [|k0 [|x r]]]; reflexivity.
+Qed.
+
+(* ====================================================================== kron *)
+Lemma kmix_div_mod (bs : shape) : forall ia ib, in_range bs ib -> length ia = length bs ->
+  kdiv bs (kmix bs ia ib) = ia /\ kmod bs (kmix bs ia ib) = ib.
+Proof.
+  unfold kdiv, kmod, kmix. induction bs as [|d bs IH]; intros [|x ia] [|y ib] Hr Hl; simpl in *; try tauto; try discriminate; auto.
+  destruct Hr as [Hy Hr]. destruct (IH ia ib Hr ltac:(lia)) as [I1 I2]. rewrite I1, I2.
+  assert (Hq : (x * d + y) / d = x) by (rewrite Z.div_add_l by lia; rewrite (Z.div_small y) by lia; lia).
+  assert (Hm : (x * d + y) mod d = y) by (rewrite Z.add_comm, Z.mod_add by lia; apply Z.mod_small; lia).
+  rewrite Hq, Hm. auto.
+Qed.
+
+Lemma kmix_of_div_mod (bs : shape) : forall ix, length ix = length bs -> Forall (fun d => 0 < d) bs ->
+  kmix bs (kdiv bs ix) (kmod bs ix) = ix.
+Proof.
+  unfold kdiv, kmod, kmix. induction bs as [|d bs IH]; intros [|x ix] Hl Hp; simpl in *; try discriminate; auto.
+  pose proof (Forall_inv Hp) as Hd. pose proof (Forall_inv_tail Hp) as Hp'. simpl in Hd.
+  rewrite (IH ix ltac:(lia) Hp'). f_equal. pose proof (Z.div_mod x d ltac:(lia)). lia.
+Qed.
+
+Lemma kmix_in_range (ash bs : shape) : forall ia ib, in_range ash ia -> in_range bs ib -> length ash = length bs ->
+  in_range (map (fun p => fst p * snd p) (combine ash bs)) (kmix bs ia ib).
+Proof.
+  unfold kmix. revert bs. induction ash as [|da ash IH]; intros [|d bs] [|x ia] [|y ib] Ha Hb Hl; simpl in *; try tauto; try discriminate.
+  destruct Ha as [Hx Ha]. destruct Hb as [Hy Hb]. split; [nia|]. apply IH; auto.
+Qed.
+
+Lemma div_mod_in_range (ash bs : shape) : forall ix, length ash = length bs ->
+  shape_ok ash -> shape_ok bs -> in_range (map (fun p => fst p * snd p) (combine ash bs)) ix ->
+  in_range ash (kdiv bs ix) /\ in_range bs (kmod bs ix) /\ Forall (fun d => 0 < d) bs /\ length ix = length bs.
+Proof.
+  unfold kdiv, kmod. revert bs. induction ash as [|da ash IH]; intros [|d bs] [|x ix] Hl Ha Hb Hr; simpl in *; try tauto; try discriminate.
+  - repeat split; auto.
+  - inversion Ha as [|? ? Hda Ha']; subst. inversion Hb as [|? ? Hd Hb']; subst. destruct Hr as [Hx Hr].
+    destruct (IH bs ix ltac:(lia) Ha' Hb' Hr) as [I1 [I2 [I3 I4]]].
+    assert (0 < d) by nia. assert (0 < da) by nia.
+    repeat split; auto.
+    + apply Z.div_pos; lia.
+    + apply Z.div_lt_upper_bound; nia.
+    + apply Z.mod_pos_bound; lia.
+    + apply Z.mod_pos_bound; lia.
+Qed.
+
+Lemma NoDup_map_inj_in {A B} (f : A -> B) (l : list A) :
+  (forall x y, In x l -> In y l -> f x = f y -> x = y) -> NoDup l -> NoDup (map f l).
+Proof.
+  induction l as [|a l IH]; simpl; intros Hinj Hnd; [constructor|].
+  apply NoDup_cons_iff in Hnd. destruct Hnd as [Ha Hnd]. constructor.
+  - intros Hin. apply in_map_iff in Hin. destruct Hin as [y [E Hy]]. apply Ha.
+    rewrite (Hinj a y); auto.
+  - apply IH; auto.
+Qed.
+
+Section KronDen.
+  Variable V : Type.
+  Variable vzero : V.
+  Variable vadd vmul : V -> V -> V.
+  Hypothesis SR : comm_semiring vzero vadd vmul.
+
+  Definition canon (c : coo V) : Prop :=
+    NoDup (c_coords c) /\ Forall (in_range (c_shape c)) (c_coords c) /\ length (c_data c) = length (c_coords c)
+    /\ c_fill c = vzero /\ shape_ok (c_shape c).
+
+  Lemma entries_keys (c : coo V) : length (c_data c) = length (c_coords c) -> map fst (entries c) = c_coords c.
+  Proof. intros H. unfold entries. apply map_fst_combine. lia. Qed.
+
+  Theorem kron_den_proof (a b : coo V) : canon a -> canon b -> length (c_shape a) = length (c_shape b) ->
+    let r := kron_m V vmul a b in
+    c_shape r = a_shape (np_kron V vmul (mkArr (c_shape a) (den a)) (mkArr (c_shape b) (den b)))
+    /\ NoDup (c_coords r) /\ Forall (in_range (c_shape r)) (c_coords r)
+    /\ forall ix, in_range (c_shape r) ix ->
+         den r ix = a_at (np_kron V vmul (mkArr (c_shape a) (den a)) (mkArr (c_shape b) (den b))) ix.
+  Proof.
+    intros [Na [Ra [La [Fa Sa]]]] [Nb [Rb [Lb [Fb Sb]]]] Hlen r.
+    set (bs := c_shape b). set (ash := c_shape a).
+    set (es := flat_map (fun ea => map (fun eb => (kmix bs (fst ea) (fst eb), vmul (snd ea) (snd eb))) (entries b)) (entries a)).
+    assert (Hka := entries_keys a La). assert (Hkb := entries_keys b Lb).
+    assert (Hmem : forall k v, In (k, v) es <->
+              exists ia va ib vb, In (ia, va) (entries a) /\ In (ib, vb) (entries b) /\ k = kmix bs ia ib /\ v = vmul va vb).
+    { intros k v. unfold es. rewrite in_flat_map. split.
+      - intros [[ia va] [Ha Hin]]. apply in_map_iff in Hin. destruct Hin as [[ib vb] [E Hb]]. inversion E; subst.
+        exists ia, va, ib, vb. auto.
+      - intros [ia [va [ib [vb [Ha [Hb [-> ->]]]]]]]. exists (ia, va). split; [exact Ha|].
+        apply in_map_iff. exists (ib, vb). auto. }
+    assert (Hin_a : forall ia va, In (ia, va) (entries a) -> in_range ash ia).
+    { intros ia va H. rewrite Forall_forall in Ra. apply Ra. rewrite <- Hka. apply in_map_iff. exists (ia, va). auto. }
+    assert (Hin_b : forall ib vb, In (ib, vb) (entries b) -> in_range bs ib).
+    { intros ib vb H. rewrite Forall_forall in Rb. apply Rb. rewrite <- Hkb. apply in_map_iff. exists (ib, vb). auto. }
+    assert (Hnd_es : NoDup (map fst es)).
+    { unfold es. clear Hmem. assert (Hnda : NoDup (map fst (entries a))) by (rewrite Hka; exact Na).
+      assert (Hndb : NoDup (map fst (entries b))) by (rewrite Hkb; exact Nb).
+      revert Hnda Hin_a. generalize (entries a) as ea. induction ea as [|[ia va] ea IH]; intros Hnda Hina; simpl; [constructor|].
+      apply NoDup_cons_iff in Hnda. destruct Hnda as [Hia Hnda]. rewrite map_app. apply NoDup_app_intro.
+      - rewrite map_map. simpl. rewrite <- (map_map fst (fun ib => kmix bs ia ib)).
+        apply NoDup_map_inj_in; [|exact Hndb].
+        intros x y Hx Hy E. apply in_map_iff in Hx. destruct Hx as [[x' vx] [<- Hx]]. apply in_map_iff in Hy. destruct Hy as [[y' vy] [<- Hy]].
+        simpl in *. pose proof (Hina ia va (or_introl eq_refl)) as Hra.
+        destruct (kmix_div_mod bs ia x' (Hin_b _ _ Hx) ltac:(rewrite (in_range_length _ _ Hra); exact Hlen)) as [_ M1].
+        destruct (kmix_div_mod bs ia y' (Hin_b _ _ Hy) ltac:(rewrite (in_range_length _ _ Hra); exact Hlen)) as [_ M2].
+        rewrite <- M1, <- M2, E. reflexivity.
+      - apply IH; [exact Hnda|intros; apply (Hina ia0 va0); right; assumption].
+      - intros k Hk1 Hk2. rewrite map_map in Hk1. simpl in Hk1. apply in_map_iff in Hk1. destruct Hk1 as [[ib vb] [<- Hb1]].
+        apply in_map_iff in Hk2. destruct Hk2 as [[k' v'] [Ek Hk2]]. simpl in Ek. subst k'.
+        apply in_flat_map in Hk2. destruct Hk2 as [[ia2 va2] [Ha2 Hk2]]. apply in_map_iff in Hk2. destruct Hk2 as [[ib2 vb2] [E2 Hb2]].
+        inversion E2 as [[E3 E4]]. simpl in *.
+        pose proof (Hina ia va (or_introl eq_refl)) as Hra. pose proof (Hina ia2 va2 (or_intror Ha2)) as Hra2.
+        destruct (kmix_div_mod bs ia ib (Hin_b _ _ Hb1) ltac:(rewrite (in_range_length _ _ Hra); exact Hlen)) as [D1 _].
+        destruct (kmix_div_mod bs ia2 ib2 (Hin_b _ _ Hb2) ltac:(rewrite (in_range_length _ _ Hra2); exact Hlen)) as [D2 _].
+        apply Hia. rewrite <- D1, <- E3, D2. apply in_map_iff. exists (ia2, va2). auto. }
+    assert (Hcoords : c_coords r = map fst es) by reflexivity.
+    split; [reflexivity|]. split; [rewrite Hcoords; exact Hnd_es|]. split.
+    - rewrite Hcoords. apply Forall_forall. intros k Hk. apply in_map_iff in Hk. destruct Hk as [[k' v] [<- Hk]].
+      apply Hmem in Hk. destruct Hk as [ia [va [ib [vb [Ha [Hb [-> _]]]]]]]. simpl.
+      apply kmix_in_range; [apply (Hin_a _ _ Ha)|apply (Hin_b _ _ Hb)|exact Hlen].
+    - intros ix Hix. cbn [np_kron a_at a_shape].
+      destruct (div_mod_in_range ash bs ix Hlen Sa Sb Hix) as [Rd [Rm [Hpos Hlix]]].
+      assert (Eent : entries r = es).
+      { unfold entries, r, kron_m. cbn [c_coords c_data]. fold bs es. apply combine_fst_snd. }
+      unfold den at 1. rewrite Eent. cbn [c_fill r kron_m].
+      destruct (lookup (entries a) (kdiv bs ix)) as [va|] eqn:Ea; destruct (lookup (entries b) (kmod bs ix)) as [vb|] eqn:Eb.
+      + apply (lookup_In V _ _ _ ltac:(rewrite Hka; exact Na)) in Ea. apply (lookup_In V _ _ _ ltac:(rewrite Hkb; exact Nb)) in Eb.
+        assert (Hk : In (ix, vmul va vb) es).
+        { apply Hmem. exists (kdiv bs ix), va, (kmod bs ix), vb. repeat split; auto. symmetry. apply kmix_of_div_mod; assumption. }
+        apply (lookup_In V es ix _ Hnd_es) in Hk. rewrite Hk. unfold den. fold bs.
+        rewrite (proj2 (lookup_In V _ _ va ltac:(rewrite Hka; exact Na)) Ea), (proj2 (lookup_In V _ _ vb ltac:(rewrite Hkb; exact Nb)) Eb). reflexivity.
+      + assert (Hnone : lookup es ix = None).
+        { destruct (lookup es ix) as [w|] eqn:El; [|reflexivity]. apply (lookup_In V es ix w Hnd_es) in El. apply Hmem in El.
+          destruct El as [ia [va' [ib [vb' [Ha [Hb [E _]]]]]]].
+          destruct (kmix_div_mod bs ia ib (Hin_b _ _ Hb) ltac:(rewrite (in_range_length _ _ (Hin_a _ _ Ha)); exact Hlen)) as [_ M].
+          rewrite <- E in M. rewrite M in Eb. apply (lookup_In V _ _ _ ltac:(rewrite Hkb; exact Nb)) in Hb. congruence. }
+        rewrite Hnone. unfold den. fold bs. rewrite Ea, Eb, Fa, Fb. rewrite (sr_mul_0_l _ _ _ SR). symmetry. apply (sr_mul_0_r _ _ _ SR).
+      + assert (Hnone : lookup es ix = None).
+        { destruct (lookup es ix) as [w|] eqn:El; [|reflexivity]. apply (lookup_In V es ix w Hnd_es) in El. apply Hmem in El.
+          destruct El as [ia [va' [ib [vb' [Ha [Hb [E _]]]]]]].
+          destruct (kmix_div_mod bs ia ib (Hin_b _ _ Hb) ltac:(rewrite (in_range_length _ _ (Hin_a _ _ Ha)); exact Hlen)) as [D _].
+          rewrite <- E in D. rewrite D in Ea. apply (lookup_In V _ _ _ ltac:(rewrite Hka; exact Na)) in Ha. congruence. }
+        rewrite Hnone. unfold den. fold bs. rewrite Ea, Eb, Fa, Fb. rewrite (sr_mul_0_l _ _ _ SR). symmetry. apply (sr_mul_0_l _ _ _ SR).
+      + assert (Hnone : lookup es ix = None).
+        { destruct (lookup es ix) as [w|] eqn:El; [|reflexivity]. apply (lookup_In V es ix w Hnd_es) in El. apply Hmem in El.
+          destruct El as [ia [va' [ib [vb' [Ha [Hb [E _]]]]]]].
+          destruct (kmix_div_mod bs ia ib (Hin_b _ _ Hb) ltac:(rewrite (in_range_length _ _ (Hin_a _ _ Ha)); exact Hlen)) as [D _].
+          rewrite <- E in D. rewrite D in Ea. apply (lookup_In V _ _ _ ltac:(rewrite Hka; exact Na)) in Ha. congruence. }
+        rewrite Hnone. unfold den. fold bs. rewrite Ea, Eb, Fa, Fb. rewrite !(sr_mul_0_l _ _ _ SR). reflexivity.
+  Qed.
+End KronDen.
+
+Example kron_example :
+  let a := mkCOO [2; 2] [[0; 0]; [1; 1]] [2; 3] 0 in
+  let b := mkCOO [1; 2] [[0; 1]] [5] 0 in
+  kron_m Z Z.mul a b = mkCOO [2; 4] [[0; 1]; [1; 3]] [10; 15] 0 /\ canon Z 0 a /\ canon Z 0 b.
+Proof.
+  split; [vm_compute; reflexivity|]. unfold canon. simpl.
+  repeat split; repeat constructor; simpl; try lia; intuition congruence.
+Qed.
+
 (* ====================================================================== non-vacuity *)
 (* the hypotheses of the theorems above hold of concrete non-trivial operands over Z *)
 Definition exA : csr Z := mkCSR [1; 2; 3] [0; 1; 2] [0; 2; 3; 3].           (* 3 x 3, one empty row *)
